@@ -172,6 +172,7 @@ def environ_of(spec):
         path = '/boom'
     elif kind in ('fixed_get', 'fixed_post', 'fixed_fail'):
         path = '/fixed'
+        headers['Cookie'] = 'c=same-for-everybody; d=also'      # byte-identical Cookie header in every such request
         if kind == 'fixed_post':
             method = 'POST'
             body = f'f=f{m}'.encode()
@@ -369,7 +370,10 @@ def sweep_units(tier, root):
     rng = random.Random(root ^ 0xC08)
     pairs = [(a, b) for a in kinds for b in kinds]
     if tier == 'quick':
-        pairs = rng.sample(pairs, 24)
+        # always: pairs in which both requests walk the same stream / container code at the same time
+        fixed = [('chunked_ok', 'chunked_ok'), ('upload', 'upload_typed'), ('echo_post', 'fixed_post'), ('badjson', 'badchunk_json'),
+                 ('fixed_get', 'fixed_get'), ('session', 'session')]
+        pairs = fixed + rng.sample(pairs, 18)
     units = []
     for a, b in pairs:
         units.append({'a': a, 'b': b, 'debug': rng.random() < 0.5, 'seed': rng.getrandbits(32)})
